@@ -289,6 +289,7 @@ func solveWith(solvers []solverSpec, query string, timeoutS int, all bool, probe
 	}
 	res := SolveResult{Status: "unknown", All: map[string]string{}}
 	got := 0
+	graceStarted := false
 	var errs []string
 	for got < len(solvers) {
 		r := <-ch
@@ -325,6 +326,14 @@ func solveWith(solvers []solverSpec, query string, timeoutS int, all bool, probe
 			if !all {
 				cancel()
 				break
+			}
+			// cross-check (thorough tier): the other portfolio members get a grace period after the first
+			// definite answer - long enough for a second opinion, short enough that a member which cannot
+			// decide the goal does not hold every obligation for its full budget
+			if !graceStarted {
+				graceStarted = true
+				grace := time.Duration(2*r.secs*float64(time.Second)) + 5*time.Second
+				time.AfterFunc(grace, cancel)
 			}
 		}
 	}
